@@ -12,6 +12,9 @@ Part 2: every descriptor regenerated from `/repo/proto/sentinel/**/*.proto` (`Hu
         supported (`all_descriptors_wf`), hence `hub_binary_roundtrip`.
 Part 3: the JSON rendering of the `Status` enum does NOT round-trip (`status_json_roundtrip_fails`);
         it would if it were printed by the `Status_name` table (`status_name_value_roundtrip`).
+        The JSON encoding of whole messages is modelled in `Hub/SDK/ProtoJson.lean`; its round-trip theorem
+        (`json_roundtrip_iff`, and for the hub `hub_json_roundtrip_iff`, `status_field_breaks_json`) is in
+        `Hub/Props/C19Json.lean`.
 
 The model is validated against the real codec by the differential probe (`/verif/harness/probe19`):
 `Proto.runProtoProbe` (model bytes of a value vs `cdc.Marshal`) and `Proto.runProtoDecodeProbe` (model
